@@ -494,7 +494,10 @@ def gen_case(rng, end, tol_only):
                 phase = 'open'
             if name == ('V.t' if end == 'client' else 'V.d2'):
                 phase = 'done'
-    return {'end': end, 'steps': steps}
+    case = {'end': end, 'steps': steps}
+    if end == 'server' and rng.random() < 0.4:
+        case['park'] = True         # V's handler stays parked after its request
+    return case
 
 
 def case_tol(case):
@@ -510,25 +513,143 @@ def case_framed(case):
 # running one case on the real code
 
 _REASONS = None
+# what the texts are in the code this harness was written against; used only if the calibration below
+# cannot be carried out
+DEFAULT_REASONS = [('Protocol error', 1), ('Stream reset by remote party, error_code: ', 2),
+                   ('Received GOAWAY frame, closing connection; error_code: ', 3), ('Connection lost', 4),
+                   ('Connection closed', 5)]
+
+
+MISSING = object()
+
+
+def _try(f, default=None):
+    try:
+        return f()
+    except Exception:
+        return default
+
+
+def by_role(obj, names, pred):
+    """a private attribute located by what it IS: first the names it has had, then any instance attribute
+    satisfying `pred`; MISSING if there is none (the caller then degrades to what is publicly visible)"""
+    for n in names:
+        v = _try(lambda: getattr(obj, n), MISSING)
+        if v is not MISSING and _try(lambda: pred(v), False):
+            return v
+    for v in _try(lambda: list(vars(obj).values()), []):
+        if _try(lambda: pred(v), False):
+            return v
+    return MISSING
+
+
+def find_parts(proto):
+    """(processor, connection, handler, h2 connection) of an H2Protocol, each possibly MISSING"""
+    from grpclib import protocol as gp
+    from h2.connection import H2Connection
+    proc = by_role(proto, ['processor'], lambda v: isinstance(v, gp.EventsProcessor))
+    conn = by_role(proto, ['connection'], lambda v: isinstance(v, gp.Connection))
+    handler = by_role(proto, ['handler'], lambda v: isinstance(v, gp.AbstractHandler))
+    h2c = MISSING if conn is MISSING else by_role(conn, ['_connection'], lambda v: isinstance(v, H2Connection))
+    return proc, conn, handler, h2c
+
+
+def stream_id_of_task(task):
+    """the id of the protocol.Stream a handler task works on (it is among its coroutine's arguments)"""
+    from grpclib import protocol as gp
+    fr_ = _try(lambda: task.get_coro().cr_frame)
+    for v in (_try(lambda: list(fr_.f_locals.values()), []) if fr_ is not None else []):
+        if isinstance(v, gp.Stream):
+            return _try(lambda: v.id)
+    return None
+
+
+def find_registry(proc):
+    """the dict stream id -> protocol.Stream of an EventsProcessor"""
+    from grpclib import protocol as gp
+    if proc is MISSING:
+        return MISSING
+
+    def is_registry(v):
+        return isinstance(v, dict) and all(isinstance(k, int) for k in v) and \
+            all(isinstance(x, gp.Stream) for x in v.values())
+    return by_role(proc, ['streams'], is_registry)
+
+
+def has_dispatch_table(proc):
+    """is there (still) a table event class -> handler?  (close() deletes it)"""
+    def is_table(v):
+        return isinstance(v, dict) and len(v) > 0 and all(isinstance(k, type) for k in v) and \
+            all(callable(x) for x in v.values())
+    return by_role(proc, ['processors'], is_table) is not MISSING
+
+
+def wrapper_error(wrapper):
+    """the exception a Wrapper was cancelled with (None: not cancelled), MISSING if it cannot be told"""
+    v = _try(lambda: getattr(wrapper, '_error'), MISSING)
+    if v is not MISSING:
+        return v
+    found = [x for x in _try(lambda: list(vars(wrapper).values()), []) if isinstance(x, BaseException)]
+    if found:
+        return found[0]
+    return None if _try(lambda: not wrapper.cancelled, False) else MISSING
+
+
+def calibrate_reasons():
+    """The texts __terminated__ is given are learnt from the RUNNING code, not from its source: a client call
+    is left pending and the peer sends garbage / resets its stream / sends GOAWAY, the transport is lost,
+    the Channel is closed -- and the error the call's wrapper holds right afterwards is read (for reset and
+    GOAWAY: the text up to the error code)."""
+    from grpclib.client import UnaryUnaryMethod
+
+    def ending(action):
+        with vloop.session() as loop:
+            ce = wire.ClientEnd(loop)
+            m = UnaryUnaryMethod(ce.channel, '/v.S/M', bytes, bytes)
+            loop.create_task(m(b'q', timeout=20))
+            loop.run_quiet(0.5)
+            sids = [e.stream_id for e in ce.peer.take_events() if type(e).__name__ == 'RequestReceived']
+            reg = find_registry(find_parts(ce.proto)[0])
+            stream = reg[sids[-1]]
+            action(ce, sids[-1])
+            err = wrapper_error(stream.wrapper)
+            return str(err) if isinstance(err, BaseException) else None
+
+    def garbage(ce, sid):
+        try:
+            ce.peer.raw(P.frame_bytes(0x9, 0x4, sid, b'\x88'))       # CONTINUATION without HEADERS
+        except BaseException:                                         # noqa
+            pass
+    actions = {
+        1: garbage,
+        2: lambda ce, sid: ce.peer.reset(sid, code=7),
+        3: lambda ce, sid: ce.peer.goaway(code=2),
+        4: lambda ce, sid: ce.transport.lose(None),
+        5: lambda ce, sid: ce.channel.close(),
+    }
+    out = []
+    for text, kind in DEFAULT_REASONS:
+        got = _try(lambda: ending(actions[kind]))
+        if got and kind in (2, 3):
+            # '<text>: <code>' -> everything up to and including the blank before the code
+            got = got[:got.rfind(' ') + 1] if ' ' in got else got
+        out.append((got or text, kind))
+    return out
 
 
 def reasons():
-    """(prefix, kind) pairs; the texts are read from the source by tools/facts_C12.py (fail-closed),
-    kinds as in ocaml/dC12.ml: 1 protocol error / local reset, 2 remote reset, 3 goaway, 4 lost, 5 closed"""
+    """(prefix, kind) pairs, kinds as in ocaml/dC12.ml: 1 protocol error / local reset, 2 remote reset,
+    3 goaway, 4 lost, 5 closed"""
     global _REASONS
     if _REASONS is None:
-        import os
-        import sys
-        from harness import core
-        tools = os.path.join(core.VERIF, 'tools')
-        if tools not in sys.path:
-            sys.path.insert(0, tools)
-        import facts_C12
-        rs = facts_C12.reason_strings(core.REPO)
-        if rs['local_reset'] != rs['protocol_error']:
-            raise RuntimeError('local-reset text differs from the protocol-error text: the model merges them')
-        _REASONS = [(rs['protocol_error'], 1), (rs['remote_reset'].split('{}')[0], 2),
-                    (rs['goaway'].split('{}')[0], 3), (rs['connection_lost'], 4), (rs['connection_closed'], 5)]
+        prev = logging.root.manager.disable
+        logging.disable(logging.CRITICAL)
+        try:
+            _REASONS = calibrate_reasons()
+        except Exception:
+            _REASONS = list(DEFAULT_REASONS)
+        finally:
+            logging.disable(prev)
     return _REASONS
 
 
@@ -573,7 +694,11 @@ class Probe:
         self.undelivered = 0
         self.fc_received = {}    # sid -> flow-controlled bytes of the DataReceived events h2 handed out
         self.fc_credited = {}    # sid -> bytes grpclib acknowledged (whoever called, whenever)
-        conn = proto.connection._connection
+        self.proc, self.conn, self.handler, conn = find_parts(proto)
+        self.h2c = conn
+        self.blind = conn is MISSING       # h2's verdict cannot be observed: no model correspondence
+        if self.blind:
+            return
         orig_recv = conn.receive_data
         orig_ack = conn.acknowledge_received_data
         orig_rst = conn.reset_stream
@@ -612,51 +737,106 @@ class Probe:
         conn.acknowledge_received_data = acknowledge_received_data
         conn.reset_stream = reset_stream
 
-    # -- state of EventsProcessor / Handler / Streams, in the vocabulary of Model/Dispatch.v
+    # -- state of EventsProcessor / Handler / Streams, in the vocabulary of Model/Dispatch.v.
+    # Everything that is not public is looked up by role and may be unobservable: such a field is None in
+    # the snapshot and listed in 'unobs' (global fields) / 'unobs_rec' (positions in the stream records);
+    # the comparison with the model leaves it out.  'blind' = the registry itself cannot be seen.
+    REC_FIELDS = 12
+
+    def handler_tables(self):
+        """(dict Stream -> Task, set of cancelled Tasks) of a server handler, or (MISSING, MISSING)"""
+        from grpclib import protocol as gp
+        h = self.handler
+        if h is MISSING:
+            return MISSING, MISSING
+        live = by_role(h, ['_tasks'], lambda v: isinstance(v, dict) and all(
+            isinstance(k, gp.Stream) and isinstance(x, asyncio.Future) for k, x in v.items()))
+        canc = by_role(h, ['_cancelled'], lambda v: isinstance(v, (set, frozenset)) and all(
+            isinstance(x, asyncio.Future) for x in v))
+        return live, canc
+
     def snap(self):
-        proc = self.proto.processor
-        conn = self.proto.connection
-        h = self.proto.handler
-        s = {'role': 0 if self.end == 'client' else 1,
-             'closed': not hasattr(proc, 'processors'),
-             'tclosed': not hasattr(conn, '_transport')}
+        from grpclib import protocol as gp
+        proc, conn, h = self.proc, self.conn, self.handler
+        unobs, unobs_rec = set(), set()
+
+        def put(key, value):
+            if value is None:
+                unobs.add(key)
+            s[key] = value
+        s = {'role': 0 if self.end == 'client' else 1}
+        reg = find_registry(proc)
+        if reg is MISSING or self.blind:
+            return {'blind': True}
+        s['closed'] = not has_dispatch_table(proc)
+        # Connection.close() lets go of the transport object
+        put('tclosed', None if conn is MISSING else
+            not any(v is self.transport for v in _try(lambda: list(vars(conn).values()), [])))
         tasks = []
         if self.end == 'client':
-            s['hflag'] = bool(h.connection_lost)
+            put('hflag', _try(lambda: bool(h.connection_lost)))
         else:
-            s['hflag'] = bool(h.closing)
-            for st, t in h._tasks.items():
-                self.task_sid.setdefault(t, st.id)
-            for t in h._cancelled:
-                # accepted and reset inside one data_received call: never seen in _tasks; the stream
-                # is the second argument of the not-yet-started request_handler coroutine
-                if t not in self.task_sid and not t.done():
-                    fr_ = getattr(t.get_coro(), 'cr_frame', None)
-                    st = fr_.f_locals.get('_stream') if fr_ is not None else None
-                    if st is None:
-                        raise RuntimeError('cannot tell which stream a cancelled handler task belongs to')
-                    self.task_sid[t] = st.id
-            live = set(h._tasks.values())
-            for t, sid in self.task_sid.items():
-                if t.done() or not (t in live or t in h._cancelled):
-                    continue
-                tasks.append((sid, t in live, t in h._cancelled))
+            put('hflag', _try(lambda: bool(h.closing)))
+            live_t, canc_t = self.handler_tables()
+            if live_t is MISSING or canc_t is MISSING:
+                unobs.add('tasks')
+            else:
+                for st, tk in live_t.items():
+                    self.task_sid.setdefault(tk, st.id)
+                for tk in canc_t:
+                    # accepted and reset inside one data_received call: never seen in the live table; the
+                    # stream is among the arguments of the not-yet-started handler coroutine
+                    if tk not in self.task_sid and not tk.done():
+                        fr_ = _try(lambda: tk.get_coro().cr_frame)
+                        sts = [v for v in (_try(lambda: list(fr_.f_locals.values()), []) if fr_ else [])
+                               if isinstance(v, gp.Stream)]
+                        if sts:
+                            self.task_sid[tk] = sts[0].id
+                        else:
+                            unobs.add('tasks')
+                live = set(live_t.values())
+                for tk, sid in self.task_sid.items():
+                    if tk.done() or not (tk in live or tk in canc_t):
+                        continue
+                    tasks.append((sid, tk in live, tk in canc_t))
         s['tasks'] = sorted(tasks)
-        s['drecv'] = conn.data_received
-        s['succ'] = conn.streams_succeeded
-        s['fail'] = conn.streams_failed
-        s['waiter'] = conn.stream_close_waiter.is_set()
-        ph = conn._close_by_ping_handler
-        s['ping'] = ph is not None and not ph.cancelled()
-        reg = []
-        for sid, st in proc.streams.items():
-            w = st.wrapper
-            ck, cc = reason_of(w._error) if w is not None else (0, 0)
-            reg.append((sid, w is not None, ck, cc, st.headers is not None, st.trailers is not None,
-                        st.headers_received.is_set(), st.trailers_received.is_set(),
-                        st.window_updated.is_set(), st.buffer._unacked.qsize(), bool(st.buffer._eof),
-                        st.data_received))
-        s['reg'] = sorted(reg)
+        put('drecv', _try(lambda: int(conn.data_received)))
+        put('succ', _try(lambda: int(conn.streams_succeeded)))
+        put('fail', _try(lambda: int(conn.streams_failed)))
+        put('waiter', _try(lambda: bool(conn.stream_close_waiter.is_set())))
+
+        def ping_armed():
+            ph = conn._close_by_ping_handler
+            return ph is not None and not ph.cancelled()
+        put('ping', _try(ping_armed))
+        recs = []
+        for sid, st in reg.items():
+            w = _try(lambda: st.wrapper, MISSING)
+            if w is MISSING:
+                rec = [sid, None, None, None]
+            elif w is None:
+                rec = [sid, False, 0, 0]
+            else:
+                err = wrapper_error(w)
+                ck, cc = (None, None) if err is MISSING else reason_of(err)
+                rec = [sid, True, ck, cc]
+            buf = _try(lambda: st.buffer)
+            queue = by_role(buf, ['_unacked'], lambda v: isinstance(v, asyncio.Queue)) if buf is not None \
+                else MISSING
+            rec += [_try(lambda: st.headers is not None), _try(lambda: st.trailers is not None),
+                    _try(lambda: bool(st.headers_received.is_set())),
+                    _try(lambda: bool(st.trailers_received.is_set())),
+                    _try(lambda: bool(st.window_updated.is_set())),
+                    None if queue is MISSING else queue.qsize(),
+                    _try(lambda: bool(buf._eof)),
+                    _try(lambda: int(st.data_received))]
+            for i, v in enumerate(rec):
+                if v is None:
+                    unobs_rec.add(i)
+            recs.append(tuple(rec))
+        s['reg'] = sorted(recs, key=lambda r: r[0])
+        s['unobs'] = sorted(unobs)
+        s['unobs_rec'] = sorted(unobs_rec)
         return s
 
     def deliver(self, data, cutf=None):
@@ -750,13 +930,25 @@ def b2i(x):
 
 
 def enc_state(s):
-    w = [s['role'], b2i(s['closed']), b2i(s['tclosed']), b2i(s['hflag']), len(s['tasks'])]
+    """unobservable fields (None) are given a neutral value; they are left out of the comparison"""
+    def z(x):
+        return 0 if x is None else x
+    tclosed = s['closed'] if s['tclosed'] is None else s['tclosed']
+    w = [s['role'], b2i(s['closed']), b2i(tclosed), b2i(s['hflag']), len(s['tasks'])]
     for sid, live, canc in s['tasks']:
         w += [sid, b2i(live), b2i(canc)]
-    w += [s['drecv'], s['succ'], s['fail'], b2i(s['waiter']), b2i(s['ping']), len(s['reg'])]
+    w += [z(s['drecv']), z(s['succ']), z(s['fail']), b2i(s['waiter']), b2i(s['ping']), len(s['reg'])]
     for r in s['reg']:
-        w += [r[0], b2i(r[1]), r[2], r[3]] + [b2i(x) for x in r[4:9]] + [r[9], b2i(r[10]), r[11]]
+        w += [r[0], b2i(r[1]), z(r[2]), z(r[3])] + [b2i(x) for x in r[4:9]] + [z(r[9]), b2i(r[10]), z(r[11])]
     return ' '.join(str(x) for x in w)
+
+
+def masked(state, unobs, unobs_rec):
+    """a state (model's or real) without the fields the harness could not observe"""
+    out = {k: v for k, v in state.items() if k not in unobs and k not in ('unobs', 'unobs_rec', 'reg')}
+    out['reg'] = [tuple(None if i in unobs_rec else (bool(v) if isinstance(v, bool) else v)
+                        for i, v in enumerate(r)) for r in state['reg']]
+    return out
 
 
 def model_line(b):
@@ -806,6 +998,13 @@ async def _handler(stream):
     msg = await stream.recv_message()
     await asyncio.sleep(0.25)
     await stream.send_message(b'R:' + (msg or b''))
+
+
+async def _parked_handler(stream):
+    """a handler that stays parked after its request (a subscription): only its deadline, a cancellation or
+    the termination of its stream ends it"""
+    await stream.recv_message()
+    await asyncio.Event().wait()
 
 
 def run_case(case):
@@ -914,6 +1113,8 @@ def _run_client(loop, case, obs):
     _settle(loop, peer, send)
     obs['closed'] = bool(ce.transport.closing or ce.transport.lost)
     obs['done_before_close'] = {k: t.done() for k, t in tasks.items()}
+    obs['reset_on_wire'] = sorted({e.stream_id for e in peer.take_events() if type(e).__name__ == 'StreamReset'})
+    obs['alive_after_settle'] = sorted(ids[k] for k, t in tasks.items() if not t.done())
     loop.run_quiet(60)
     for k, t in tasks.items():
         o = vloop.outcome(t)
@@ -933,11 +1134,13 @@ def _run_client(loop, case, obs):
 
 def _run_server(loop, case, obs):
     ids = IDS['server']
-    se = wire.ServerEnd(loop, [Service('v.S', {'M': (_handler, 'UU')})])
+    se = wire.ServerEnd(loop, [Service('v.S', {'M': (_handler, 'UU'), 'W': (_parked_handler, 'UU')})])
     loop.run_quiet(1)
     probe = Probe('server', se.proto, se.transport)
     peer = se.peer
     req = P.REQ_HEADERS + [('grpc-timeout', '20S')]
+    # with case['park'] the call in flight V is a parked one (it ends with its 20 s deadline at the latest)
+    req_v = [(k, '/v.S/W' if (k == ':path' and case.get('park')) else v) for k, v in req]
 
     def send(cutf=None):
         data = peer.h2.data_to_send()
@@ -965,7 +1168,7 @@ def _run_server(loop, case, obs):
             sid = ids[who]
             pad = step.get('pad')
             if what == 'h':
-                ok = say(peer.h2.send_headers, sid, req)
+                ok = say(peer.h2.send_headers, sid, req_v if who == 'V' else req)
             elif what == 'd1':
                 ok = say(peer.h2.send_data, sid, msg[who][:3], pad_length=pad)
             elif what == 'd2':
@@ -980,14 +1183,19 @@ def _run_server(loop, case, obs):
             send()
     _settle(loop, peer, send)
     obs['closed'] = bool(se.transport.closing or se.transport.lost)
-    h = se.proto.handler
-    obs['done_before_close'] = {'handlers': all(t.done() for t in list(h._tasks.values()) + list(h._cancelled))}
+    # on a server endpoint every task of the loop is a request handler (the harness creates none)
+    obs['done_before_close'] = {'handlers': all(t.done() for t in asyncio.all_tasks(loop))}
+    # streams the endpoint has reset on the wire (the peer got RST_STREAM) versus handlers still running
+    early = peer.take_events()
+    obs['reset_on_wire'] = sorted({e.stream_id for e in early if type(e).__name__ == 'StreamReset'})
+    obs['alive_after_settle'] = sorted({s for s in (stream_id_of_task(t) for t in asyncio.all_tasks(loop)
+                                                   if not t.done()) if s is not None})
     loop.run_quiet(60)
     send()
     loop.run_quiet(1)
     # what the scripted client saw per stream
     seen = {}
-    for ev in peer.take_events():
+    for ev in early + peer.take_events():
         sid = getattr(ev, 'stream_id', None)
         if sid is None:
             continue
@@ -1015,12 +1223,18 @@ def _run_server(loop, case, obs):
             obs['outcomes'][k] = 'reset'
         else:
             obs['outcomes'][k] = 'partial'
-    for t in list(h._tasks.values()) + list(h._cancelled):
+    for t in asyncio.all_tasks(loop):
         # F, V and K carry a 20 s deadline and must be over by now; a stream the INJECTED frames opened
         # and never fed is legitimately still waiting for its request while the connection lives
-        if not t.done() and probe.task_sid.get(t) in (ids['F'], ids['V'], ids['K']):
-            obs['pending'].append('handler:%s' % probe.task_sid.get(t))
-    obs['leftover'] = sorted(se.proto.processor.streams)
+        if t.done():
+            continue
+        sid = probe.task_sid.get(t)
+        if sid is None:
+            sid = stream_id_of_task(t)
+        if sid in (ids['F'], ids['V'], ids['K']) or (sid is None and obs['closed']):
+            obs['pending'].append('handler:%s' % sid)
+    reg = find_registry(probe.proc)
+    obs['leftover'] = sorted(reg) if reg is not MISSING else []
     _collect(probe, obs, n_pre)
     if obs['closed'] and not obs['raises']:
         obs['post_close_probe'] = _post_close_probe(probe)
@@ -1332,7 +1546,9 @@ def _run_agg(loop, case, obs):
     loop.run_quiet(35)            # every deadline (30 s) is over: all calls and handlers are done
     send()
     # (a) who is still registered although no call is alive
-    agg['registry'] = sorted(ep.proto.processor.streams)
+    reg = find_registry(probe.proc)
+    agg['registry'] = sorted(reg) if reg is not MISSING else []
+    agg['registry_observable'] = reg is not MISSING
     # (b) ledger at the h2 API boundary: flow-controlled bytes handed to grpclib vs bytes it credited back
     for sid, got in sorted(probe.fc_received.items()):
         cr = probe.fc_credited.get(sid, 0)
@@ -1346,8 +1562,7 @@ def _run_agg(loop, case, obs):
         agg['final'] = 'ok' if bad is None else bad
     obs['closed'] = not alive()
     if end == 'server':
-        h = ep.proto.handler
-        for tk in list(h._tasks.values()) + list(h._cancelled):
+        for tk in asyncio.all_tasks(loop):
             if not tk.done():
                 obs['pending'].append('handler')
     _collect(probe, obs, n_pre)
@@ -1432,6 +1647,11 @@ def oracle(case, obs):
                     {'kind': 'hang', 'end': end, 'closed': obs['closed']}))
     if obs['raises']:
         return out          # the connection was killed by the exception; the rest would be derivative
+    # 2'. no call outlives its stream: once the endpoint has reset a stream on the wire (because the peer
+    #     violated the protocol on it, or for any other reason) the call that owns it is over within 1 s
+    for sid in sorted(set(obs.get('reset_on_wire') or []) & set(obs.get('alive_after_settle') or [])):
+        out.append(('the endpoint sent RST_STREAM for stream %d but the call that owns it is still running 1 s later'
+                    % sid, {'kind': 'call-outlives-reset-stream', 'end': end}))
     ok_after_close = ('ok', 'StreamTerminated') if end == 'client' else None
     if obs['closed']:
         # 3. violation / GOAWAY => orderly shutdown: every pending call is terminated, promptly
@@ -1462,7 +1682,8 @@ def oracle(case, obs):
                         {'kind': 'tolerable-closed', 'end': end, 'h2err': obs['h2err']}))
         else:
             for k in ('F', 'V', 'K'):
-                if obs['outcomes'].get(k) != 'ok':
+                want = 'status:4' if (k == 'V' and end == 'server' and case.get('park')) else 'ok'
+                if obs['outcomes'].get(k) != want:
                     out.append(('call %s ended with %s although only tolerable frames were injected'
                                 % (k, obs['outcomes'].get(k)),
                                 {'kind': 'tolerable-broke-call', 'end': end, 'call': k,
@@ -1486,11 +1707,18 @@ def oracle(case, obs):
 def slim(case):
     if case.get('kind') == 'agg':
         return {k: v for k, v in case.items() if k != 'note'}
-    return {'end': case['end'], 'steps': case['steps']}
+    out = {'end': case['end'], 'steps': case['steps']}
+    if case.get('park'):
+        out['park'] = True
+    return out
 
 
 def _queue_batches(res, case, obs, lines, refs):
     for bi, b in enumerate(obs['batches']):
+        if b['pre'].get('blind') or b['post'].get('blind'):
+            # the registry / h2's verdict could not be located: this call is judged by the oracle only
+            res.count('correspondence degraded: state not observable')
+            continue
         if b['h2raise'] and not (b['h2raise'] == 'UnicodeDecodeError' and b['raised'] is None):
             # h2 raised something that is neither a ProtocolError nor the UnicodeDecodeError that
             # data_received handles: below the model, judged by the oracle only
@@ -1577,8 +1805,13 @@ def check(ctx, res, cases):
         elif b['raised'] is not None:
             bad = ('model does not raise', b['raised'])
         else:
-            if m['state'] != b['post']:
-                diff = {k: (m['state'][k], b['post'][k]) for k in b['post'] if m['state'].get(k) != b['post'][k]}
+            un = set(b['pre']['unobs']) | set(b['post']['unobs'])
+            unr = set(b['pre']['unobs_rec']) | set(b['post']['unobs_rec'])
+            ms, ps = masked(m['state'], un, unr), masked(b['post'], un, unr)
+            if un or unr:
+                res.count('correspondence degraded: fields not observable', 1)
+            if ms != ps:
+                diff = {k: (ms[k], ps[k]) for k in ps if ms.get(k) != ps[k]}
                 bad = ('post-state differs', diff)
             elif m['credit'] != b['credit']:
                 bad = ('returned credit differs', (m['credit'], b['credit']))
@@ -1606,7 +1839,10 @@ def replay_witnesses(res):
     with vloop.session() as loop:
         se = wire.ServerEnd(loop, [Service('v.S', {'M': (_handler, 'UU')})])
         loop.run_quiet(1)
-        proc = se.proto.processor
+        proc = find_parts(se.proto)[0]
+        if proc is MISSING or not callable(getattr(proc, 'process', None)):
+            res.count('witness:server double StreamReset below h2:not injectable (no EventsProcessor.process)')
+            return
         got = []
         try:
             # the stream must exist in h2 for create_stream/handler: open it through the peer
